@@ -12,7 +12,7 @@ pub fn coinbase(height: u64, tag: u32, outputs: Vec<TxOut>) -> Tx {
     let mut sig = vec![0x08];
     sig.extend_from_slice(&(height as u32).to_le_bytes());
     sig.extend_from_slice(&tag.to_le_bytes());
-    Tx { version: 1, segwit: false, inputs: vec![TxIn::coinbase(sig)], outputs, locktime: 0 }
+    Tx { version: 1, segwit: false, inputs: vec![TxIn::coinbase(sig)], outputs, locktime: 0, wide: 0 }
 }
 
 pub fn pay(addr_seed: u8, value: u64) -> TxOut {
